@@ -17,6 +17,10 @@ def obligations(tier):
         if did != "D06" or tier != "quick":
             obs.append(ob("C04", "e2c.req." + did, "vt.harness.C04:terminal",
                           {"did": did, "steps": steps - 1, "requests": True}, timeout=1200))
+    for did in ("D07", "D07w"):
+        o = ob("C04", "e2c.lazy." + did, "vt.harness.C04:terminal", {"did": did, "steps": steps, "lazy_start": 2}, timeout=900)
+        o["antecedents"] = ["c04_after_terminal"]
+        obs.append(o)
     obs.append(ob("C04", "twin.D07", "vt.harness.C04:terminal", {"did": "D07", "steps": 5, "twin": True}, timeout=60))
     for o in obs:
         if ".ctl." in o["id"]:
